@@ -573,6 +573,17 @@ func (e *Exec) makeSlice(t types.Type, n, c *Term) Value {
 			if !e.branch(tb.Cmp(OpUle, c, tb.BVu(1<<47, 64))) {
 				e.goPanic("runtime error: makeslice: len out of range")
 			}
+			if e.h.OOBHook != "" && !e.inOOBHook {
+				// the allocation is larger than the encoding's buffers: the harness still gets to
+				// judge its size (C20: has the gas charged so far paid for it?)
+				if hp := e.eng.findPkg(e.h.Pkg); hp != nil {
+					if hf := hp.Func(e.h.OOBHook); hf != nil {
+						e.inOOBHook = true
+						e.callFn(hf, []Value{c})
+						e.inOOBHook = false
+					}
+				}
+			}
 			e.handleLimit("oob", fmt.Sprintf("make([]byte, n) with n possibly > %d at %s", max, e.curSite()))
 		} else if !ok {
 			max = e.tightBound(c, max)
